@@ -69,6 +69,12 @@ ls.for_prop('C16',
                   'oblige("match-data", len(_sent) != 1 or sent_field(_sent[0], "data_set") == encoded_dataset(data_set))',
                   'oblige("match-context", len(_sent) != 1 or _sent[0][3] == ctx.id)'])
 
+# C17: every per-match response carries the status the application handler gave with that match
+ls.for_prop('C17',
+            head=['_t0 = trace_len()'],
+            tail=['_sent = events_since(_t0, "send")',
+                  'oblige("match-status-is-the-handlers", len(_sent) == 1 and sent_field(_sent[0], "status") == status)'])
+
 # qr_find_scu: the receive loop of the C-FIND user
 c = contract('sopclass.qr_find_scu')
 c.prop('C16')
